@@ -15,8 +15,11 @@ def register(check, not_yet):
           "the AST) over z3 Int / exact Real: truncated-quotient, remainder-sign and floored-modulus specifications hold for every "
           "dividend (unbounded) and symbolic or huge divisors, for proper ratios too, results are ints when integral; add/subtract/"
           "multiply/divide are exact and their result representation depends only on the operand kinds, symmetrically for + and *.",
+          "The IR capture is closed over every core function the arithmetic functions refer to, and runtime.equals is interpreted from "
+          "/repo's runtime.py, so a rewrite of rem in terms of mod and = is still decided; kernel models are replayed on the real functions. "
+          "CrossHair obligations for quot/rem/mod use a bounded dividend (|x| <= 25) over direct / non-inlined / apply call forms. "
           "Trusted: CrossHair int model, z3 LIA/LRA; Fraction modelled as exact rational with denominator==1 iff integral; runtime "
-          "rest-argument helpers and the trampoline are modelled as intrinsics. Decimal/float contagion is outside.",
+          "rest-argument helpers and the trampoline are modelled as intrinsics. Decimal/float contagion is enumerated over a 13-value universe only.",
           "CrossHair symbolic execution + SMT (z3) over Int/Real", "DESIGN.md section 4 C20", "A:crosshair + B:pysym")
     check("C12", "model_checking",
           "SMT-based bounded model checking of the real Atom/RefBase methods: the methods' ASTs are compiled to a "
@@ -86,7 +89,8 @@ def register(check, not_yet):
           "(each table character, the reserved-word suffix, '..') and a final query proving munge injective on all names outside those "
           "classes. Each sat model is replayed through the real compiler: (def a 1) (def b 2) a => 2, in both linking modes.",
           "Bound: |a| <= 2-3, |b| <= |a|-1+len(replacement), every code point a symbol may contain. The collision classes are recorded "
-          "known findings (munge is non-injective by design); a collision outside them is a violation. def/alias/refer histories are not yet checked.",
+          "known findings (munge is non-injective by design); a collision outside them is a violation. def/alias/refer/redef histories (incl. def inside called, nested and async functions) are "
+          "one exhaustive concrete run of 600 two-step histories x 3 option sets, labelled as not solver-decided in the evidence.",
           "SMT (z3 LIA) over a symbolic interpretation of the real munge AST, flattened string encoding", "DESIGN.md section 4 C10", "B:pysym")
     check("C03", "other",
           "Bounded symbolic verification of the real printer and reader under CrossHair: print -> read -> compare (one form, equal, same "
@@ -103,15 +107,18 @@ def register(check, not_yet):
           "reader->analyzer->generator->optimizer->exec under the 8 code-generation option sets; the compiled function runs on "
           "CrossHair symbolic parameters (nil/bool/int) and its result or exception class is compared with a ~200-line reference "
           "evaluator of the same source on every path.",
-          "Program shapes are a fixed corpus (42 bodies), not solver-chosen; quick samples the (context, option) combinations by "
-          "VERIF_SEED. Trusted: the reference evaluator. One recorded finding (closures created in a loop body).",
+          "Program shapes are a fixed corpus (42 bodies) plus a seeded generated sample (48 quick / 200 thorough programs from "
+          "vlib/props/c01_gen.py: snapshots by bare name, closures created before a re-binding, try/finally around recur, def in "
+          "statement position; logged values compared as a multiset, a compile failure counts as a difference), not solver-chosen; "
+          "parameters range over nil/true/false/0/1 (ints are realised at the persistent-collection boundary). Trusted: the reference "
+          "evaluator. Two recorded findings (closures created in a loop body; a finally clause reading a loop local after recur).",
           "CrossHair (z3) symbolic execution of compiler output vs reference evaluator", "DESIGN.md section 4 C01", "A:crosshair")
     check("C02", "translation_validation",
           "Same pipeline with effect markers: (t :k v) appends :k to a trace and returns a symbolic parameter, so branch choices, "
           "catch clauses and loop counts are solver-decided; the compiled program's trace and result must equal the reference "
-          "evaluator's (left-to-right, exactly once, never on untaken branches) over 14 enclosing forms x argument position x 5 "
+          "evaluator's (left-to-right, exactly once, never on untaken branches) over 16 enclosing forms (incl. loop and fn-arity recur) x argument position x 5 "
           "compound sibling kinds plus macro/interop/operator programs.",
-          "Shapes enumerated/sampled by VERIF_SEED. The recorded hoisting finding is matched only when every marker ran exactly once "
+          "Shapes enumerated; the quick tier takes 3 seeded (position, kind) combinations of every enclosing form. The recorded hoisting finding is matched only when every marker ran exactly once "
           "and the value is right (trace is a permutation); any other trace difference is a violation.",
           "CrossHair (z3) symbolic execution of compiler output vs reference evaluator traces", "DESIGN.md section 4 C02", "A:crosshair")
     check("C18", "other",
@@ -120,7 +127,8 @@ def register(check, not_yet):
           "to every dispatch value is compared with a from-scratch resolution (unique candidate preceding all others / default / "
           "ambiguous / none) and isa?/parents/ancestors/descendants are checked for mutual consistency; dedicated three-candidate "
           "scenarios cover all 24 iteration orders.",
-          "Bound: histories of length 2 (quick) / 3 (thorough) over 3 dispatch values + :default; keyword hashes fixed by PYTHONHASHSEED=0. "
+          "Bound: histories of length 2 (quick) / 3 (thorough) over 3 dispatch values + :default, plus derive/underive-only histories of "
+          "length 3 / 4 over every ordered pair of 3 tags (redundant edges are real edges, cycle-closing derives must be refused); keyword hashes fixed by PYTHONHASHSEED=0. "
           "Data is concrete on each path: the solver's role is choosing operations/orders exhaustively.",
           "CrossHair (z3) exploration of solver-chosen operation histories on the real classes", "DESIGN.md section 4 C18", "A:crosshair")
     check("C08", "other",
@@ -138,7 +146,10 @@ def register(check, not_yet):
           "maps with symbolic key presence, nil) and must bind exactly what the real nth / nthnext / get return. Syntax-quote templates "
           "are evaluated with a symbolic unquoted value and spliced sequence: holes filled, collection types preserved, symbols qualified "
           "to the Var they denote (core / local / alias / special form), auto-gensyms one symbol per template and fresh per template and per read.",
-          "Patterns and templates are enumerated (8 + 4). The reader is given runtime.resolve_alias as resolver, as the importer and REPL do.",
+          "8 hand-written patterns + generated patterns over the documented vocabulary (vlib/props/c09_grammar.py: every key style x "
+          "false/nil/0/computed :or defaults, quoted-symbol/string/int keys, keyword-argument rests, nesting <= 3; 24 quick / 70 thorough) "
+          "checked against a compositional reference built on the real nth/nthnext/get for conforming, short, over-long, lazy, nil and wrongly "
+          "typed values; 4 syntax-quote templates (fixed). The reader is given runtime.resolve_alias as resolver, as the importer and REPL do.",
           "CrossHair (z3) symbolic execution of compiled destructuring / syntax-quote forms vs nth/get oracle", "DESIGN.md section 4 C09", "A:crosshair")
     check("C14", "other",
           "Partial, bounded symbolic verification: (1) importer._get_basilisp_bytecode is interpreted by PySym over a symbolic byte "
@@ -154,8 +165,8 @@ def register(check, not_yet):
           "SMT (z3) over PySym interpretation of the real header codec and keyword intern code; CrossHair; subprocess replays", "DESIGN.md section 4 C14", "B:pysym + A:crosshair")
     check("C06", "exploration",
           "Single-threaded consumption histories only: CrossHair chooses a consumption program (first/rest/next/seq on any cell "
-          "obtained so far), the sequence length and the index at which the element producer throws, for lazy-seq, map, filter, concat, "
-          "iterate and seqs over Python iterables compiled from core.lpy and driving the real native LazySeq/Cons; an offset model says "
+          "obtained so far) and the sequence length, for lazy-seq, map, filter, concat (1+n and 2+2), mapcat, lazy-cat, "
+          "iterate and seqs over Python iterables, with one obligation per index at which the element producer throws, compiled from core.lpy and driving the real native LazySeq/Cons; an offset model says "
           "what each access must return, that each producer index runs at most once (twice for the index that threw), that nothing "
           "beyond the demanded index is produced, and that an exception does not corrupt the sequence. The native module is rebuilt "
           "from /repo/rust (cargo, offline) and the fresh build is used when it differs from the installed .so.",
@@ -168,6 +179,7 @@ def register(check, not_yet):
           "model (list / dict / set + metadata) is updated alongside and every value ever produced is compared with its model at the end "
           "(so a mutation of an earlier version, e.g. through a transient, is caught); with-meta must give an equal, equal-hash value "
           "carrying exactly the given metadata and leave the original's metadata alone.",
-          "Weakest kind of claim in this family: the C cores of pyrsistent / immutables run concretely; history length 2 (quick) / 3 "
-          "(thorough) from seeds of 0, 3 or 34 elements. Metadata of derived values (pop, into, ...) is not prescribed by the property and not checked.",
+          "Weakest kind of claim in this family: the C cores of pyrsistent / immutables run concretely; history length 2 (quick, keys incl. nil, "
+          "values 0/nil) / 3 (thorough) plus every single operation on the full domain (values 0/nil/false compared strictly), from seeds of 0, 3, 4 "
+          "(shared hash bits) or 34 elements. Metadata of derived values (pop, into, ...) is not prescribed by the property and not checked.",
           "CrossHair (z3) exploration of solver-chosen operation histories vs a Python model", "DESIGN.md section 4 C04", "A:crosshair")
